@@ -102,7 +102,7 @@ func checkDeadline(tb tb) (d time.Time) {
 		if recover() != nil {
 			// Go 1.25+: T.Deadline panics inside a testing/synctest bubble, where the
 			// clock is fake and can not be compared with the real-time test deadline anyway
-			d = time.Now().Add(100 * 365 * maxTestTimeout)
+			d = time.Date(9999, 1, 1, 0, 0, 0, 0, time.UTC) // out of reach of any amount of fake sleeping: time.Until saturates
 		}
 	}()
 	d, ok = t.Deadline()
